@@ -23,6 +23,9 @@ type zzhItemData struct {
 	name string
 	flag bool
 	sub  []string
+	// skeletons with two nested lists: which of the keys the item carries at all, and the second list
+	hasSubs, hasNotes bool
+	notes             []string
 }
 
 type zzhTplData struct {
@@ -51,11 +54,30 @@ func zzhPickTplData(skeleton string) zzhTplData {
 		it := zzhItemData{}
 		if usesItems {
 			it.name, it.flag = zzhValue(1), zzvBool()
-			if zzvStrContains(skeleton, "each subs") {
+			if zzvStrContains(skeleton, "each notes") {
+				// items of one list need not carry the same nested lists
+				switch zzvChoice(3) {
+				case 0:
+					it.hasSubs = true
+				case 1:
+					it.hasNotes = true
+				case 2:
+					it.hasSubs, it.hasNotes = true, true
+				}
+				if it.hasSubs {
+					it.sub = append(it.sub, zzhValue(1))
+				}
+				if it.hasNotes {
+					it.notes = append(it.notes, zzhValue(1))
+				}
+			} else if zzvStrContains(skeleton, "each subs") {
+				it.hasSubs = true
 				m := zzvChoice(3)
 				for j := 0; j < m; j++ {
 					it.sub = append(it.sub, zzhValue(1))
 				}
+			} else {
+				it.hasSubs = true
 			}
 		}
 		d.items = append(d.items, it)
@@ -79,11 +101,20 @@ func (d zzhTplData) toTemplateData() *TemplateData {
 	var items, scalars []interface{}
 	for i, it := range d.items {
 		m := map[string]interface{}{"iname": it.name, "flag": it.flag}
-		var sub []interface{}
-		for _, s := range it.sub {
-			sub = append(sub, map[string]interface{}{"v": s})
+		if it.hasSubs {
+			var sub []interface{}
+			for _, s := range it.sub {
+				sub = append(sub, map[string]interface{}{"v": s})
+			}
+			m["subs"] = sub
 		}
-		m["subs"] = sub
+		if it.hasNotes {
+			var notes []interface{}
+			for _, s := range it.notes {
+				notes = append(notes, map[string]interface{}{"n": s})
+			}
+			m["notes"] = notes
+		}
 		items = append(items, m)
 		scalars = append(scalars, d.scalars[i])
 	}
@@ -113,6 +144,8 @@ var zzhSkeletons = []string{
 	"{{#if c}}{{#each words}}{{this}} {{/each}}{{/if}}|{{#if missing}}never{{/if}}",
 	"{{#each items}}- {{iname}}{{#if flag}}\n  note {{iname}}\n{{/if}};{{/each}}",
 	"{{#each items}}{{iname}}:{{#if flag}}on{{else}}off{{/if}} {{/each}}",
+	"A{{#if c}}{{else}}no {{name}}{{/if}}B",
+	"{{#each items}}{{iname}}:{{#each subs}}{{v}},{{/each}}{{#each notes}}<{{n}}>{{/each}};{{/each}}",
 }
 
 func zzhWantRendered(k int, d zzhTplData) string {
@@ -185,6 +218,23 @@ func zzhWantRendered(k int, d zzhTplData) string {
 			} else {
 				out += "off "
 			}
+		}
+		return out
+	case 11:
+		if c {
+			return "AB"
+		}
+		return "Ano " + name + "B"
+	case 12:
+		for _, it := range d.items {
+			out += it.name + ":"
+			for _, s := range it.sub {
+				out += s + ","
+			}
+			for _, s := range it.notes {
+				out += "<" + s + ">"
+			}
+			out += ";"
 		}
 		return out
 	case 9:
